@@ -52,6 +52,9 @@ FAMILY = [
     ("class", None, None, "<p>${'<'} ${name}</p>", "PageTemplate", "PageTextTemplate"),
     ("class_module", None, None, '<p tal:content="hello">x</p>', "PageTemplate", "Alt:PageTemplate"),
     ("filename", "a.pt", "b.pt", "<p>${1/0}</p>", "PageTemplate", "PageTemplate"),
+    # the same file name with the same content in two directories (a
+    # template copied from one skin to another): the path is compiled in
+    ("directory", "d0", "d1", "<p>${name}${1/0}</p>", "PageTemplateFile", "PageTemplateFile"),
     ("extra_builtins", {"foo": 1}, {"bar": 1}, "<p>${foo | 'nofoo'} ${bar | 'nobar'}</p>", "PageTemplate", "PageTemplate"),
     ("strict", True, False, '<div><p tal:condition="False" tal:content="a b"/>ok</div>', "PageTemplate", "PageTemplate"),
     ("trim_attribute_space", True, False, '<div  a="1"\n     b="2">x</div>', "PageTemplate", "PageTemplate"),
@@ -535,9 +538,13 @@ class C15(CheckBase):
                         ta["config"][name] = va
                     if vb is not None:
                         tb["config"][name] = vb
-            if name in ("implicit_i18n_translate",):
-                pass
-            if name not in ("class", "class_module", "filename") and \
+            if name == "directory":
+                for t_, d_ in ((ta, va), (tb, vb)):
+                    t_["config"].pop("directory", None)
+                    t_["file"] = "index.pt"
+                    t_["dir"] = d_
+            if name not in ("class", "class_module", "filename",
+                            "directory") and \
                     ch.coin(0.35) and not any(
                         0xD800 <= ord(c_) <= 0xDFFF
                         for c_ in ta["body"] + tb["body"]):
